@@ -133,9 +133,12 @@ class Anchors:
                 if f == "abs":
                     return f"|{x}|"
                 return f"({f} {x})"
-            if name in ("max", "min", "np.maximum", "np.minimum") and len(e.args) == 2:
+            if name in ("max", "min", "np.maximum", "np.minimum") and len(e.args) >= 2 and not e.keywords:
                 f = "max" if "max" in name else "min"
-                return f"({f} {self.to_lean(e.args[0], env)} {self.to_lean(e.args[1], env)})"
+                out = self.to_lean(e.args[0], env)
+                for a_ in e.args[1:]:
+                    out = f"({f} {out} {self.to_lean(a_, env)})"
+                return out
             if name in ("np.max", "np.min", "max", "min") and len(e.args) == 1 and isinstance(e.args[0], (ast.List, ast.Tuple)):
                 f = "max" if "max" in name else "min"
                 xs = [self.to_lean(x, env) for x in e.args[0].elts]
